@@ -450,6 +450,9 @@ def pr(node, ind):
         _, fn, cset, ptr, var, ksome, knone = node
         return ([pad + f"({fn} {cset} {ptr}"] + paren(pr(knone, ind + 1)) + [pad + f"  (fun {var} =>"] +
                 close(close(pr(ksome, ind + 2))))
+    if k == "lit":
+        _, fn, lit, ptr, kmatch, kmis = node
+        return [pad + f"({fn} {lit} {ptr}"] + paren(pr(kmatch, ind + 1)) + close(paren(pr(kmis, ind + 1)))
     raise AssertionError(k)
 
 
@@ -551,6 +554,7 @@ class Snippet:
         self.nlocal = 0
         self.expanding = set()
         self.assumed = set()
+        self.lit = "Cxx.litR"
         self.functions = {}      # other member functions of Json::Private that may be inlined: name -> (params, body)
         self.inlining = set()
 
@@ -649,7 +653,7 @@ class Snippet:
 
     def setvar(self, env, name, v, ctx):
         if name not in env:
-            if name != "token.value":
+            if name not in ("token.value", "token.token"):
                 raise Refuse(f"{self.prefix}: assignment to the unknown variable `{name}`")
             env = dict(env)
             env[name] = (("uninit", "Variant"), 9999, 0)
@@ -753,6 +757,8 @@ class Snippet:
 
     def assign(self, e, env, ctx, k):
         _, op, lhs, rhs = e
+        if self.var_name(lhs) == "token.pos" and op == "=" and rhs == ("id", "pos"):
+            return k(("void",), env)              # the start of the token: only used for messages nobody reads
 
         def with_rhs(v, env2):
             nm = self.var_name(lhs)
@@ -761,7 +767,7 @@ class Snippet:
                     v2 = self.arith(op[0], self.lookup(env2, nm)[0], v)
                 else:
                     v2 = v
-                    old = ("uninit",) if nm == "token.value" else self.lookup(env2, nm)[0]
+                    old = ("uninit",) if nm in ("token.value", "token.token") else self.lookup(env2, nm)[0]
                     if old[0] == "uninit" or old[0] == v[0] or {old[0], v[0]} <= {"ptr", "null"} or \
                             (old[0] == "bool" and v[0] == "cbool") or (old[0] == "cbool" and v[0] in ("bool", "cbool")):
                         pass
@@ -805,6 +811,14 @@ class Snippet:
                     cset = "[" + ", ".join(str(b) for b in args[1][1]) + "]"
                     return ("find", self.find, cset, self.ptr_lean(p), var, k(("ptr", var, 0), env2), k(("null",), env2))
                 return self.ev(args[0], env, ctx, found)
+            if name == "String::compare" and len(args) == 3 and args[1][0] == "str" and args[2][0] == "num" \
+                    and args[2][1] == len(args[1][1]) and 0 not in args[1][1]:
+                def cmp(p, env2):                 # result 0 in the one branch, non-zero in the other
+                    if p[0] != "ptr":
+                        raise Refuse(f"{self.prefix}: String::compare on a {p[0]} value")
+                    lit = "[" + ", ".join(str(b) for b in args[1][1]) + "]"
+                    return ("lit", self.lit, lit, self.ptr_lean(p), k(("const", 0), env2), k(("const", 1), env2))
+                return self.ev(args[0], env, ctx, cmp)
             if name == "Unicode::append" and len(args) == 2:
                 tgt = self.var_name(args[1])
 
@@ -1119,12 +1133,15 @@ class Snippet:
                 if "pos" in used:
                     used |= {"pos.pos", "pos.line"}
                 visible = sorted(((order, n) for n, (v, order, depth) in env1.items()
-                                  if n in used and n != flag and v[0] in ("ptr", "bytes", "nat", "bool", "cbool", "out", "int", "uninit") and not n.startswith("$") and n != "token.value"))
+                                  if ((n in used and n != flag and n != "token.value" and
+                                       v[0] in ("ptr", "bytes", "nat", "bool", "cbool", "out", "int", "uninit"))
+                                      or (n == "token.token" and v[0] in ("byte", "const"))) and not n.startswith("$")))
                 last = [n for o, n in visible if n == self.last]
                 names = [n for o, n in visible if n != self.last] + last
                 name = f"{self.prefix}L{len(self.loops)}"
                 params = []
-                env_in = {n: v for n, v in env1.items() if v[0][0] in ("outbuf", "outstart") or n == "token.value"}
+                env_in = {n: v for n, v in env1.items() if v[0][0] in ("outbuf", "outstart") or n == "token.value"
+                          or (n == "token.token" and v[0][0] == "uninit")}
                 for n in names:
                     v, order, depth = env1[n]
                     kind = v[0]
@@ -1138,6 +1155,8 @@ class Snippet:
                         sym, ty = ("bytes", lean), "List Byte"
                     elif kind == "out":
                         sym, ty = ("out", lean, v[2]), "List Byte"
+                    elif kind in ("byte", "const"):
+                        sym, ty = ("byte", lean), "Nat"
                     elif kind == "nat":
                         sym, ty = ("nat", lean), "Nat"
                     elif kind == "int":
@@ -1201,6 +1220,7 @@ class Snippet:
             v = {"ptr": ("ptr", lean, 0), "nat": ("nat", lean), "bytes": ("bytes", lean)}[kind]
             env[n] = (v, i, 0)
         env["token.value"] = (("uninit", "Variant"), 9999, 0)
+        env["token.token"] = (("uninit", "char"), 9998, 0)
 
         def end(env2):
             if self.fallthrough is None:
@@ -1274,6 +1294,35 @@ def ret_tok(kind):
     return ret
 
 
+def ret_whole(v, env, sn):
+    if v[0] != "cbool":
+        raise Refuse(f"{sn.prefix}: return value that is not true/false")
+    if not v[1]:
+        if "$err" not in env:
+            raise Refuse(f"{sn.prefix}: `return false` without syntaxError")
+        _, line, p = env["$err"][0]
+        return f"Res.fail {line} {p}"
+    tok = env["token.token"][0]
+    if tok[0] not in ("byte", "const"):
+        raise Refuse(f"{sn.prefix}: token.token is a {tok[0]} at `return true`")
+    tv = env["token.value"][0]
+    if tv[0] == "uninit":
+        val = "Val.null"                 # the value of the previous token stays: never read for these tokens
+    elif tv[0] == "bytes":
+        val = f"(Val.str {tv[1]})"
+    elif tv[0] == "cbool":
+        val = f"(Val.bool {'true' if tv[1] else 'false'})"
+    elif tv[0] == "val":
+        val = tv[1]
+    elif tv[0] == "dbl":
+        val = f"(Val.dbl {tv[1]})"
+    elif tv[0] == "int":
+        val = f"(Val.{'int' if tv[2] == 'int' else 'int64'} {tv[1]})"
+    else:
+        raise Refuse(f"{sn.prefix}: token.value is a {tv[0]}")
+    return f"Res.ok ⟨{sn.lean_of(tok)}, {val}, {sn.lean_of(env['pos.line'][0])}, {sn.lean_of(env['pos.pos'][0])}⟩"
+
+
 def ret_ws(v, env, sn):
     if v[0] != "void":
         raise Refuse("skipSpace: returns a value")
@@ -1296,7 +1345,7 @@ def translate(cpp_text):
     functions = {}
     for m in re.finditer(r"\b(?:bool|void)\s+Json::Private::(\w+)\s*\(([^)]*)\)\s*\{", src):
         fname = m.group(1)
-        if fname in ("readToken", "skipSpace", "syntaxError", "parse", "parseObject", "parseArray", "parseValue"):
+        if fname in ("readToken", "syntaxError", "parse", "parseObject", "parseArray", "parseValue"):
             continue
         params = []
         ok = True
@@ -1342,6 +1391,12 @@ def translate(cpp_text):
     body = function_body(src, r"void\s+Json::Private::skipSpace\s*\(\s*\)", "Json::Private::skipSpace")
     sn = Snippet("ws", "Res (Nat × List Byte)", "Cxx.rdR", "Cxx.findR", tokext, "pos.pos", ret_ws)
     parts.append(sn.run(body, "skipWs", "`Json::Private::skipSpace`"))
+    assumed |= sn.assumed
+
+    # 5. readToken as a whole (skipSpace inlined)
+    sn = Snippet("tok", "Res St", "Cxx.rdR", "Cxx.findR", tokext, "pos.pos", ret_whole)
+    sn.functions = functions
+    parts.append(sn.run(rt, "readToken", "`Json::Private::readToken`, the whole body (`skipSpace` executed in place)"))
     assumed |= sn.assumed
 
     head = ("/- GENERATED by tools/gen_json.py (tools/gen_json_cxx.py) by TRANSLATING statements of src/Document/Json.cpp of the\n"
